@@ -1,6 +1,6 @@
 use crate::internal::category::Category;
 use crate::internal::codepage::CodePage;
-use crate::internal::column::Column;
+use crate::internal::column::{Column, ColumnType};
 use crate::internal::expr::Expr;
 use crate::internal::query::{Delete, Insert, Select, Update};
 use crate::internal::stream::{StreamReader, StreamWriter, Streams};
@@ -33,6 +33,10 @@ const STRING_DATA_TABLE_NAME: &str = "_StringData";
 const STRING_POOL_TABLE_NAME: &str = "_StringPool";
 
 const MAX_NUM_TABLE_COLUMNS: usize = 32;
+
+// The _Columns table stores a string column's maximum length in the low byte
+// of its type bitfield, so longer maximum lengths cannot be represented.
+const MAX_STRING_COLUMN_LENGTH: usize = 255;
 
 // ========================================================================= //
 
@@ -592,6 +596,17 @@ impl<F: Read + Write + Seek> Package<F> {
                 let name = column.name();
                 if !Column::is_valid_name(name) {
                     invalid_input!("{:?} is not a valid column name", name);
+                }
+                if let ColumnType::Str(max_len) = column.coltype() {
+                    if max_len > MAX_STRING_COLUMN_LENGTH {
+                        invalid_input!(
+                            "Column {:?} has a maximum string length of {}, \
+                             but the largest representable maximum is {}",
+                            name,
+                            max_len,
+                            MAX_STRING_COLUMN_LENGTH
+                        );
+                    }
                 }
                 if column_names.contains(name) {
                     invalid_input!(
